@@ -53,7 +53,8 @@ def _user_dict(form, rep, variant):
             cname, pn = ALIAS[(n, m)]
             pname = pn or pname
         pair = [(cname, float(k * mod) if m else float(k))]
-        if m:
+        if m and not (d2 == 0 and d1 > 0 and (variant // 2) % 2 == 0):
+            # (an angle of exactly zero may simply be left out: users write {"C56": 5} for phi56 = 0)
             j = variant % m
             pair.append((pname, math.atan2(d2, d1) / m + 2 * math.pi * j / m))
         if variant % 2:
@@ -188,7 +189,7 @@ def run_case(arg):
             act = e["act"]
             if act == "Standardize":
                 st = cp.standardize_aberration_coefs(user)
-                if set(st) != {k_ for (n, m, *_r) in e["rep"] for k_ in ([f"C{n}{m}"] + ([f"phi{n}{m}"] if m else []))}:
+                if set(st) != {cp.POLAR_ALIASES.get(k_, k_) for k_ in user}:
                     bad("C12:Standardize:keys", f"standardize_aberration_coefs({user}) returned keys {sorted(st)}")
                 check_polar_state(st, e, "Standardize", 1e-5, 1e-4)
                 va = validate_aberration_coefficients(dict(user))
